@@ -94,9 +94,21 @@ def run_cases(ctx, E, N, replay_case=None):
                 for sq in _it.product([0, 1, 2, 4, 5], repeat=n):
                     for op, f in (("Sort", ""), ("SortBy", "id"), ("Distinct", "")):
                         fx.write(json.dumps({"op": op, "s": list(sq), "s2": [], "ss": [], "n": 0, "e": 0, "f": f, "acc": 0}, separators=(",", ":")) + "\n")
-    for inst in ("int", "string", "xint"):
+    # a fourth instantiation for Distinct: elements of a STRUCT type (pairs of strings) several of which print alike
+    pfile = os.path.join(sd, "slice_cases_pair.ndjson")
+    with open(pfile, "w") as fp:
+        if replay_case is None:
+            import itertools as _it2
+            for n in (1, 2, 3, 4):
+                for sq in _it2.product(range(6), repeat=n):
+                    fp.write(json.dumps({"op": "Distinct", "s": list(sq), "s2": [], "ss": [], "n": 0, "e": 0, "f": "", "acc": 0}, separators=(",", ":")) + "\n")
+            for sq in ([6, 7, 8, 9, 6, 8], [9, 8, 7, 6, 5, 4, 3, 2, 1, 0], [0, 1, 0, 1, 2, 3, 2, 3]):
+                fp.write(json.dumps({"op": "Distinct", "s": sq, "s2": [], "ss": [], "n": 0, "e": 0, "f": "", "acc": 0}, separators=(",", ":")) + "\n")
+        elif replay_case.get("op") == "Distinct" and all(0 <= v <= 9 for v in replay_case.get("s", [])):
+            fp.write(json.dumps(replay_case, separators=(",", ":")) + "\n")
+    for inst in ("int", "string", "xint", "pair"):
         outp = os.path.join(sd, "slice_out_%s.ndjson" % inst)
-        rc, so, se = core.sh([drv, "cases", xfile if inst == "xint" else cases_file, outp, inst], timeout=1800)
+        rc, so, se = core.sh([drv, "cases", {"xint": xfile, "pair": pfile}.get(inst, cases_file), outp, inst], timeout=1800)
         if rc != 0:
             raise Infra("drv_slice failed: %s %s" % (so[-1000:], se[-2000:]))
         lines += core.read_ndjson(outp)
